@@ -81,7 +81,7 @@ func factsC16(r *Repo) []Fact {
 
 	ext, extFile := cp.Func("", "extractOption")
 	if ext == nil || ext.Body == nil {
-		for _, n := range []string{"typeCmpIdentity", "passSubPathIsError", "nestedCopies"} {
+		for _, n := range []string{"typeCmpIdentity", "passSubPathIsError", "nestedCopies", "designateCopies"} {
 			out = append(out, unknownFact(n, "Bool", "false", "compose/utils.go", "func extractOption not found"))
 		}
 		out = append(out, unknownFact("strip", "Nat", "0", "compose/utils.go", "func extractOption not found"))
@@ -275,6 +275,99 @@ func factsC16(r *Repo) []Fact {
 		out = append(out, boolFact("nestedCopies", nOptDefs == nOptCopies && !writesInput && dcOK,
 			where+": every nOpt := opt.deepCopy(), no assignment through a parameter/range variable; "+dcWhere+" returns freshly made slices and copies each NodePath"))
 	}
+
+	// ---- designateCopies: Option.DesignateNodeWithPath must not append to the receiver's
+	// paths in place (value receiver: the copy shares the backing array with the caller's value).
+	// true  = `o.paths = append(X, path...)` where X is a local built by make(...) that o.paths was
+	//         copied into (copy(X, o.paths) or X = append(X, o.paths...));
+	// false = `o.paths = append(o.paths, path...)`.
+	if dn, f := cp.Func("Option", "DesignateNodeWithPath"); dn != nil && dn.Body != nil && len(dn.Recv.List) == 1 && len(dn.Recv.List[0].Names) == 1 {
+		dwhere := "compose/" + f + ": func (Option) DesignateNodeWithPath"
+		recv := dn.Recv.List[0].Names[0].Name
+		_, ptrRecv := dn.Recv.List[0].Type.(*ast.StarExpr)
+		param := ""
+		if ps := dn.Type.Params.List; len(ps) == 1 && len(ps[0].Names) == 1 {
+			param = ps[0].Names[0].Name
+		}
+		made := map[string]bool{}
+		copied := map[string]bool{}
+		verdict := "unknown"
+		nAssign := 0
+		ast.Inspect(dn.Body, func(n ast.Node) bool {
+			switch st := n.(type) {
+			case *ast.AssignStmt:
+				if len(st.Lhs) != 1 || len(st.Rhs) != 1 {
+					return true
+				}
+				l, rhs := exprString(st.Lhs[0]), st.Rhs[0]
+				if ce, ok := rhs.(*ast.CallExpr); ok {
+					fn := exprString(ce.Fun)
+					if id, isId := st.Lhs[0].(*ast.Ident); isId && fn == "make" {
+						made[id.Name] = true
+					}
+					if fn == "append" && len(ce.Args) == 2 && ce.Ellipsis.IsValid() {
+						a0, a1 := exprString(ce.Args[0]), exprString(ce.Args[1])
+						if made[a0] && a1 == recv+".paths" && l == a0 {
+							copied[a0] = true
+						}
+						if l == recv+".paths" && a1 == param {
+							nAssign++
+							switch {
+							case a0 == recv+".paths":
+								verdict = "inplace"
+							case made[a0] && copied[a0]:
+								verdict = "copies"
+							default:
+								verdict = "unknown"
+							}
+						}
+					}
+				}
+			case *ast.ExprStmt:
+				if ce, ok := st.X.(*ast.CallExpr); ok && exprString(ce.Fun) == "copy" && len(ce.Args) == 2 {
+					if made[exprString(ce.Args[0])] && exprString(ce.Args[1]) == recv+".paths" {
+						copied[exprString(ce.Args[0])] = true
+					}
+				}
+			}
+			return true
+		})
+		switch {
+		case ptrRecv || nAssign != 1 || verdict == "unknown":
+			out = append(out, unknownFact("designateCopies", "Bool", "false", dwhere, "shape of the append to "+recv+".paths not recognised"))
+		case verdict == "copies":
+			out = append(out, boolFact("designateCopies", true, dwhere+": paths copied into a fresh slice before the append"))
+		default:
+			out = append(out, boolFact("designateCopies", false, dwhere+": `"+recv+".paths = append("+recv+".paths, "+param+"...)` on a value receiver (in place when there is spare capacity)"))
+		}
+	} else {
+		out = append(out, unknownFact("designateCopies", "Bool", "false", "compose/graph_call_options.go", "method Option.DesignateNodeWithPath not found"))
+	}
+	// DesignateNode delegates to DesignateNodeWithPath with freshly made single-key paths
+	delegates := false
+	if dn, _ := cp.Func("Option", "DesignateNode"); dn != nil && dn.Body != nil && len(dn.Recv.List[0].Names) == 1 {
+		recv := dn.Recv.List[0].Names[0].Name
+		madeKeys := map[string]bool{}
+		ast.Inspect(dn.Body, func(n ast.Node) bool {
+			switch st := n.(type) {
+			case *ast.AssignStmt:
+				if len(st.Lhs) == 1 && len(st.Rhs) == 1 && strings.HasPrefix(exprString(st.Rhs[0]), "make(") {
+					if id, ok := st.Lhs[0].(*ast.Ident); ok {
+						madeKeys[id.Name] = true
+					}
+				}
+			case *ast.ReturnStmt:
+				if len(st.Results) == 1 {
+					if ce, ok := st.Results[0].(*ast.CallExpr); ok && exprString(ce.Fun) == recv+".DesignateNodeWithPath" &&
+						len(ce.Args) == 1 && ce.Ellipsis.IsValid() && madeKeys[exprString(ce.Args[0])] {
+						delegates = true
+					}
+				}
+			}
+			return true
+		})
+	}
+	setShape("Option.DesignateNode: returns o.DesignateNodeWithPath(<freshly made NodePaths>...)", delegates)
 
 	// ---- shape facts (must all be true; the model has these shapes built in)
 	conds := c16Conds(ext.Body)
